@@ -177,7 +177,7 @@ CLAIMED = {
               "transcribed with its index clipping), u*, direction, convention and U10 against estimate_u10_from_spectrum for "
               "batches in four layouts and non-default parameters; analytic-tail, scaling and 2D = 1D oracles on the code."),
         design="6/C12", technique="Lean 4 proof (argmax invariant, scaling invariance, modular range) + Float-model correspondence",
-        note=PROOF_NOTE + " For the mean method the theorem gives the level of the selected flat window; that this window lies in *the* c f^-4 range (and not in another flat range) is the premise of the property and is exercised by the analytic-tail oracle. Second tie: tools/py2lean_arith.py re-translates the two assignments of windestimate.py: friction_velocity that turn the equilibrium level into u* from the current source on every run, and OsuProps/C12Gen.lean proves the result equal to the model's ustar."),
+        note=PROOF_NOTE + " For the mean method the theorem gives the level of the selected flat window; that this window lies in *the* c f^-4 range (and not in another flat range) is the premise of the property and is exercised by the analytic-tail oracle. Second tie: tools/py2lean_arith.py re-translates four statement slices of windestimate.py from the current source on every run - equilibrium level -> u*, (180/pi atan2(b1,a1)) % 360, (270 - direction) % 360 and u*/kappa log(10/z0) - and OsuProps/C12Gen.lean proves them equal to the model's ustar, tailDirection, toMeteorological and u10Of."),
     "C05": dict(
         text=("Lean 4 theorems at ℝ over the model of mem.py / mem2.py: for every multiplier vector (hence for whatever Newton "
               "- converged, out of iterations, line search failed, any linear solver -, scipy or the first guess end with) the "
